@@ -40,6 +40,18 @@ def seeds_for(b, c, tier):
                     out.append((syn, fn(b.mod, t, v), v))
                 except Exception:
                     pass
+            # BASIC-OER seeds: the long form of one length determinant / quantity (valid, never produced by the library itself);
+            # their truncations end inside a multi-octet determinant
+            if 'k:ObjectDescriptor' not in fe:
+                try:
+                    vs = ber.variants(lambda ch: oer.encode(b.mod, t, v, ch), 1, cap=40)
+                    picked = 0
+                    for enc, ch in vs:
+                        if 'nonminimal_length' in ch.features and picked < 2:
+                            out.append(('oer', enc, v))
+                            picked += 1
+                except Exception:
+                    pass
     return out, fe_all
 
 
